@@ -112,6 +112,25 @@ var c01Constructs = []c01Construct{
 			"page.vuego": `<template include="comp.vuego" :val="y"><template v-slot:body="p"><b :title="p.x">{{ p.x }}</b></template></template>`,
 			"comp.vuego": `<section><slot name="body" :x="val"></slot></section>`}, d
 	}},
+	// the value forwarded as a bound prop by an include tag that is itself slot content, the slot being used more than once
+	{"slot-content-include-twice", func(s string, v any) (map[string]string, map[string]any) {
+		d := c01Data(v)
+		d["y"] = v
+		delete(d, "x")
+		return map[string]string{
+			"page.vuego": `<template include="wrap.vuego"><template include="comp.vuego" :x="y"></template></template>`,
+			"wrap.vuego": `<header><slot></slot></header><footer><slot></slot></footer>`,
+			"comp.vuego": "<section>" + s + "</section>"}, d
+	}},
+	{"slot-content-include-looped", func(s string, v any) (map[string]string, map[string]any) {
+		d := c01Data(v)
+		d["y"] = v
+		delete(d, "x")
+		return map[string]string{
+			"page.vuego": `<template include="wrap.vuego"><template include="comp.vuego" x="{{ y }}"></template><i :title="y">t</i></template>`,
+			"wrap.vuego": `<ul><li v-for="n in rows"><slot></slot></li><li><slot></slot></li></ul>`,
+			"comp.vuego": "<section>" + s + "</section>"}, d
+	}},
 	{"layout-var", func(s string, v any) (map[string]string, map[string]any) {
 		return map[string]string{"page.vuego": "---\nlayout: main\n---\n<em>page</em>", "layouts/main.vuego": `<main><div v-html="content"></div>` + s + `</main>`}, c01Data(v)
 	}},
